@@ -395,3 +395,31 @@ func stepIndex(p *ir.Path, s *ir.Step) int {
 	}
 	return -1
 }
+
+// ctorKinds: each exported constructor of the package builds the error-mode kind it promises (shared by C07, C09, C11).
+func ctorKinds(c *core.Ctx, pkg string) {
+	sh := pkgShort(pkg)
+	if c.Rules["catch-summaries"] == nil {
+		c.Doc("catch-summaries", 5, "catch implementations are the fail-fast or the try form, as their constructor promises")
+	}
+	byType := map[string]*catchImpl{}
+	for _, ci := range catchImpls(c, pkg) {
+		byType[ci.TypeName] = ci
+	}
+	for _, ctor := range []struct{ name, want string }{{"Lift", "fail-fast"}, {"Pure", "fail-fast"}, {"LiftF", "fail-fast"}, {"Try", "try"}, {"TryF", "try"}} {
+		fn := c.W.Func(pkg, ctor.name)
+		cname := sh + "." + ctor.name
+		if fn == nil {
+			c.Undecided("catch-summaries", cname, 0, "constructor not found")
+			continue
+		}
+		tn := constructedType(fn)
+		ci := byType[sh+"."+tn]
+		if ci == nil || ci.Catch == nil {
+			c.Undecided("catch-summaries", cname, fn.Pos(), "cannot resolve the implementation type constructed by %s (found %q)", cname, tn)
+			continue
+		}
+		c.Check(ci.Kind == ctor.want, "catch-summaries", cname, ci.Catch.Pos(), fmt.Sprintf("%s => %s: %s", cname, ci.TypeName, ci.Kind),
+			"%s constructs %s whose catch is %q, expected the %s form (%s)", cname, ci.TypeName, ci.Kind, ctor.want, ci.Why)
+	}
+}
